@@ -106,6 +106,9 @@ func (w *World) acct(name string) *Account {
 	if a, ok := w.N.Accts[name]; ok {
 		return a
 	}
+	if name == "gov" {
+		return &Account{Name: "gov"}
+	}
 	panic("unknown account " + name)
 }
 
@@ -247,6 +250,22 @@ func (w *World) buildTx(c *Chain, a map[string]any) (*TxSpec, error) {
 			msg.Metadata = &providertypes.ConsumerMetadata{Name: "n2", Description: "d2", Metadata: "m2"}
 		}
 		tx.Msgs = []sdk.Msg{msg}
+	case "UpdateParams":
+		params := c.PApp.ProviderKeeper.GetParams(c.GetContext())
+		if has(a, "M") {
+			params.MaxProviderConsensusValidators = geti(a, "M")
+		}
+		if has(a, "bpe") {
+			params.BlocksPerEpoch = geti(a, "bpe")
+		}
+		if has(a, "epochsToReward") {
+			params.NumberOfEpochsToStartReceivingRewards = geti(a, "epochsToReward")
+		}
+		tx.Signer = w.acct(gets(a, "authority"))
+		tx.Msgs = []sdk.Msg{&providertypes.MsgUpdateParams{Authority: w.addrOf(gets(a, "authority")), Params: params}}
+	case "ChangeRewardDenoms":
+		tx.Signer = w.acct(gets(a, "authority"))
+		tx.Msgs = []sdk.Msg{&providertypes.MsgChangeRewardDenoms{Authority: w.addrOf(gets(a, "authority")), DenomsToAdd: getl(a, "add"), DenomsToRemove: getl(a, "remove")}}
 	case "RemoveConsumer":
 		tx.Signer = w.acct(gets(a, "sender"))
 		tx.Msgs = []sdk.Msg{&providertypes.MsgRemoveConsumer{Owner: tx.Signer.Addr().String(), ConsumerId: consIDOf(gets(a, "c"))}}
@@ -274,10 +293,6 @@ func (w *World) buildTx(c *Chain, a map[string]any) (*TxSpec, error) {
 		case "SetCommission":
 			tx.Msgs = []sdk.Msg{&providertypes.MsgSetConsumerCommissionRate{ProviderAddr: valAddr, Rate: sdkmath.LegacyMustNewDecFromStr(gets(a, "rate")), Signer: tx.Signer.Addr().String(), ConsumerId: cid}}
 		}
-	case "RelayTo": // deliver n packets from the counterparty into this chain (CCV channel)
-		return w.relayRecvTx(c, a)
-	case "AckTo": // deliver n acks into this chain
-		return w.relayAckTx(c, a)
 	default:
 		return nil, fmt.Errorf("unknown action %q", kind)
 	}
@@ -387,6 +402,38 @@ func (w *World) Block(chain string, dt int64, absent []string, actions ...map[st
 	}
 	var txs []TxSpec
 	for _, a := range actions {
+		switch gets(a, "a") {
+		case "RelayTo":
+			// provider-bound packets and non-batched deliveries: one packet per transaction
+			n := int(geti(a, "n"))
+			if n == 0 {
+				n = 1
+			}
+			if getb(a, "batch") {
+				if tx, err := w.relayRecvTx(c, a); err == nil {
+					txs = append(txs, *tx)
+				}
+				continue
+			}
+			for i := 0; i < n; i++ {
+				a1 := map[string]any{}
+				for k, v := range a {
+					a1[k] = v
+				}
+				a1["n"] = 1
+				tx, err := w.relayRecvTx(c, a1)
+				if err != nil {
+					break
+				}
+				txs = append(txs, *tx)
+			}
+			continue
+		case "AckTo":
+			if tx, err := w.relayAckTx(c, a); err == nil {
+				txs = append(txs, *tx)
+			}
+			continue
+		}
 		tx, err := w.buildTx(c, a)
 		if err != nil {
 			continue
@@ -398,6 +445,51 @@ func (w *World) Block(chain string, dt int64, absent []string, actions ...map[st
 		ab[k] = true
 	}
 	return c.ProduceBlock(txs, dt, ab)
+}
+
+// GovExec executes governance-authority messages the way x/gov does when a proposal passes: through the message
+// router on a cache context that is written only if the handler succeeds (ValidateBasic was run at submission).
+func (w *World) GovExec(actions ...map[string]any) {
+	c := w.P
+	for _, a := range actions {
+		a["sender"] = "gov"
+		a["authority"] = "gov"
+		tx, err := w.buildTx(c, a)
+		if err != nil || len(tx.Msgs) != 1 {
+			continue
+		}
+		msg := tx.Msgs[0]
+		ctx := c.GetContext()
+		code := 0
+		logmsg := ""
+		if vb, ok := msg.(interface{ ValidateBasic() error }); ok {
+			if err := vb.ValidateBasic(); err != nil {
+				code, logmsg = 1, err.Error()
+			}
+		}
+		if code == 0 {
+			handler := c.PApp.MsgServiceRouter().Handler(msg)
+			cctx, write := ctx.CacheContext()
+			func() {
+				defer func() {
+					if r := recover(); r != nil {
+						code, logmsg = 111, fmt.Sprint(r)
+					}
+				}()
+				if _, err := handler(cctx, msg); err != nil {
+					code, logmsg = 2, err.Error()
+				} else {
+					write()
+				}
+			}()
+		}
+		args := map[string]any{}
+		for k, v := range tx.Args {
+			args[k] = v
+		}
+		args["gov"] = true
+		w.rec.emit("p", "Tx:"+tx.Kind, args, map[string]any{"code": code, "log": trunc(logmsg, 160)}, w.projectProvider(c, c.GetContext()))
+	}
 }
 
 // StartConsumer instantiates the consumer chain for a launched consumer from the provider's stored genesis.
